@@ -247,6 +247,38 @@ Section Sim.
   Definition SRw (t1 t2 : peset) (s1 s2 : str) : Prop :=
     exists b0 a n, s1 = b0 ++ enc_with c1 t1 (cps inp a n) /\ s2 = b0 ++ enc_with c2 t2 (cps inp a n).
 
+  (* instance of the path relation used for the plain lock-step theorems: equal when the path sets are equal *)
+  Definition PR_eq (u1 u2 : url) : Prop :=
+    c_pathSet c1 = c_pathSet c2 -> u_path u1 = u_path u2 /\ u_opaque u1 = u_opaque u2.
+
+  Lemma seg_end_same u1 u2 b sl :
+    u_scheme u1 = u_scheme u2 -> u_path u1 = u_path u2 -> u_opaque u1 = u_opaque u2 ->
+    u_path (seg_end c1 u1 b sl) = u_path (seg_end c2 u2 b sl) /\
+    u_opaque (seg_end c1 u1 b sl) = u_opaque (seg_end c2 u2 b sl).
+  Proof.
+    intros Hs P1 P2. unfold seg_end. cbv zeta. unfold IsSpecialScheme. rewrite iss, Hcol, Hdrv, Hs, P1.
+    destruct (isDoubleDotPathSegment b).
+    - destruct (negb sl); unfold addSegment;
+        cbn [u_path u_opaque set_path]; split; congruence.
+    - destruct (isSingleDotPathSegment b && negb sl).
+      + destruct (negb _); unfold addSegment; cbn [u_path u_opaque set_path]; split; congruence.
+      + destruct (negb (isSingleDotPathSegment b)); [|split; assumption].
+        destruct (negb _); unfold addSegment; cbn [u_path u_opaque set_path]; split; congruence.
+  Qed.
+
+  Lemma PR_eq_refl u : PR_eq u u.
+  Proof. intros _. split; reflexivity. Qed.
+  Lemma PR_eq_ext u1 u2 v1 v2 :
+    u_scheme v1 = u_scheme u1 -> u_path v1 = u_path u1 -> u_opaque v1 = u_opaque u1 ->
+    u_scheme v2 = u_scheme u2 -> u_path v2 = u_path u2 -> u_opaque v2 = u_opaque u2 -> PR_eq u1 u2 -> PR_eq v1 v2.
+  Proof. intros _ P1 O1 _ P2 O2 H E. destruct (H E). split; congruence. Qed.
+  Lemma PR_eq_seg u1 u2 b1 b2 sl : u_scheme u1 = u_scheme u2 -> PR_eq u1 u2 -> SRp b1 b2 ->
+    PR_eq (seg_end c1 u1 b1 sl) (seg_end c2 u2 b2 sl).
+  Proof.
+    intros Hs H (b0 & a & n & -> & ->) E. destruct (H E) as [P1 P2].
+    rewrite (encp_eq _ E). apply seg_end_same; assumption.
+  Qed.
+
   (* the relation between the path components (segments and opaque flag) is a parameter: it must only depend
      on scheme and path component, hold between equals, and be kept when a segment ends *)
   Variable PR : url -> url -> Prop.
@@ -313,13 +345,13 @@ Section Sim.
   Proof.
     destruct st; cbn [BR]; try reflexivity; exists b, (ptr + 1)%Z, 0%nat;
       cbn [cps cpsp seq map encp enc_with flat_map]; rewrite app_nil_r;
-      (split; [right; lia|split; reflexivity]).
+      (split; [right; apply Z.add_0_r|split; reflexivity]).
   Qed.
 
   Lemma BR_fresh st e ptr u1 u2 : BR st e ptr u1 u2 [] [].
   Proof.
     destruct st; cbn [BR]; try reflexivity; exists [], (ptr + 1)%Z, 0%nat;
-      cbn [cps cpsp seq map encp enc_with flat_map app]; (split; [right; lia|split; reflexivity]).
+      cbn [cps cpsp seq map encp enc_with flat_map app]; (split; [right; apply Z.add_0_r|split; reflexivity]).
   Qed.
 
   Lemma Rm_refl m : Rm m m.
@@ -473,8 +505,8 @@ Section Sim.
       assert (Ee : eof = false) by (destruct eof; [discriminate EC|reflexivity]).
       assert (E2 : e2 = false) by (unfold eof in Ee; destruct (n_inp inp <=? p)%Z; [discriminate Ee|exact Ee]).
       cbn [BR] in HB |- *. destruct HB as (b0 & a & n & Han & -> & ->). exists b0, a, (Datatypes.S n).
-      assert (Han' : (a + Z.of_nat n = p)%Z) by (destruct Han as [Han|Han]; [congruence|unfold p; lia]).
-      split; [right; lia|]. rewrite cpsp_S, !encp_app, !encp_one, !app_assoc.
+      assert (Han' : (a + Z.of_nat n = p)%Z) by (destruct Han as [Han|Han]; [congruence|exact Han]).
+      split; [right; rewrite Nat2Z.inj_succ, <- Z.add_1_r, Z.add_assoc, Han'; reflexivity|]. rewrite cpsp_S, !encp_app, !encp_one, !app_assoc.
       rewrite Han'. fold r. split; reflexivity.
   Qed.
 
@@ -506,8 +538,8 @@ Section Sim.
         intros w1 w2 HW. apply Ro_late; [reflexivity|apply (VR_URel u1 u2 _ _ HU HW)|].
         destruct HW as (v & -> & ->). cbn [BR] in HB |- *.
         destruct HB as (b0 & a & n & Han & -> & ->). exists b0, a, (Datatypes.S n).
-        assert (Han' : (a + Z.of_nat n = p)%Z) by (destruct Han as [Han|Han]; [congruence|unfold p; lia]).
-        split; [right; lia|]. rewrite cps_S, !enc_with_app, !app_assoc.
+        assert (Han' : (a + Z.of_nat n = p)%Z) by (destruct Han as [Han|Han]; [congruence|exact Han]).
+        split; [right; rewrite Nat2Z.inj_succ, <- Z.add_1_r, Z.add_assoc, Han'; reflexivity|]. rewrite cps_S, !enc_with_app, !app_assoc.
         rewrite Han'. fold r. cbn [enc_with flat_map]. rewrite !app_nil_r. split; reflexivity.
   Qed.
 
@@ -531,8 +563,8 @@ Section Sim.
       intros w1 w2 HW. apply Ro_late; [reflexivity|apply (VR_URel u1 u2 _ _ HU HW)|].
       destruct HW as (v & -> & ->). cbn [BR] in HB |- *.
       destruct HB as (b0 & a & n & Han & -> & ->). exists b0, a, (Datatypes.S n).
-      assert (Han' : (a + Z.of_nat n = p)%Z) by (destruct Han as [Han|Han]; [congruence|unfold p; lia]).
-      split; [right; lia|]. rewrite cps_S, !enc_with_app, !app_assoc.
+      assert (Han' : (a + Z.of_nat n = p)%Z) by (destruct Han as [Han|Han]; [congruence|exact Han]).
+      split; [right; rewrite Nat2Z.inj_succ, <- Z.add_1_r, Z.add_assoc, Han'; reflexivity|]. rewrite cps_S, !enc_with_app, !app_assoc.
       rewrite Han'. fold r. cbn [enc_with flat_map]. rewrite !app_nil_r. split; reflexivity.
   Qed.
 
@@ -583,3 +615,50 @@ Section Sim.
     rewrite (Rm_eof _ _ S). destruct (m_eof m2'); [exact (Rm_url _ _ S)|apply IH, S].
   Qed.
 End Sim.
+
+(* ------------------------------------------------------------------ *)
+(* BasicParser                                                         *)
+(* ------------------------------------------------------------------ *)
+Section Lift.
+  Variable idna_raw : str -> str * bool.
+  Variables c1 c2 : cfg.
+  Hypothesis A : agree_nosets c1 c2.
+  Variable PR : list rune -> url -> url -> Prop.
+  Hypothesis PR_refl : forall inp u, PR inp u u.
+  Hypothesis PR_ext : forall inp u1 u2 v1 v2,
+    u_scheme v1 = u_scheme u1 -> u_path v1 = u_path u1 -> u_opaque v1 = u_opaque u1 ->
+    u_scheme v2 = u_scheme u2 -> u_path v2 = u_path u2 -> u_opaque v2 = u_opaque u2 -> PR inp u1 u2 -> PR inp v1 v2.
+  Hypothesis PR_seg : forall inp u1 u2 b1 b2 sl, u_scheme u1 = u_scheme u2 -> PR inp u1 u2 -> SRp c1 c2 inp b1 b2 ->
+    PR inp (seg_end c1 u1 b1 sl) (seg_end c2 u2 b2 sl).
+
+  (* the code points the machine runs on (the same for both configurations) *)
+  Definition run_input (x : str) (u0 : option url) : list rune := decode (cleaned (c_acceptInvalid c2) x u0).
+
+  Theorem sets_BasicParser_gen : forall x b u0 ov,
+    Rres c1 c2 (run_input x u0) (PR (run_input x u0))
+      (BasicParser idna_raw c1 x b u0 ov) (BasicParser idna_raw c2 x b u0 ov).
+  Proof.
+    intros x b u0 ov.
+    destruct A as (Hrep & Hfail & Hlax & Hcol & Hacc & Hpre & Hpost & Hsp & Hdrv & Hspec & Hsts & Hlatin).
+    assert (Hf : same_front c2 c1 (pre_input x u0)) by (repeat split; try assumption; rewrite Hacc; reflexivity).
+    assert (Hr : same_front c2 c2 (pre_input x u0)) by (repeat split).
+    destruct (BasicParser_shape idna_raw b ov c2 x u0) as [[u [e S]]|[v S]].
+    - rewrite (S c1 Hf), (S c2 Hr). apply Rres_refl. apply PR_refl.
+    - rewrite (S c1 Hf), (S c2 Hr). unfold machine_run.
+      apply run_rel; try assumption; [apply PR_refl|apply PR_ext|apply PR_seg|]. apply Rm_refl. apply PR_refl.
+  Qed.
+End Lift.
+
+(* the plain instance *)
+Theorem sets_BasicParser : forall idna_raw c1 c2, agree_nosets c1 c2 -> forall x b u0 ov,
+  Rres c1 c2 (run_input c2 x u0) (PR_eq c1 c2)
+    (BasicParser idna_raw c1 x b u0 ov) (BasicParser idna_raw c2 x b u0 ov).
+Proof.
+  intros idna_raw c1 c2 A x b u0 ov.
+  pose proof A as (Hrep & Hfail & Hlax & Hcol & Hacc & Hpre & Hpost & Hsp & Hdrv & Hspec & Hsts & Hlatin).
+  apply (sets_BasicParser_gen idna_raw c1 c2 A (fun _ => PR_eq c1 c2)).
+  - intros _ u. apply PR_eq_refl.
+  - intros _. apply PR_eq_ext.
+  - intros inp. apply PR_eq_seg; assumption.
+Qed.
+Print Assumptions sets_BasicParser.
